@@ -1478,6 +1478,7 @@ func (m *Machine) mapUpdate(x, k, v Value) {
 }
 
 type iterV struct {
+	sym   *SymStr
 	keys  []string
 	m     *MapObj
 	str   string
@@ -1496,6 +1497,8 @@ func (m *Machine) rangeIter(x Value) Value {
 		return it
 	case string:
 		return &iterV{str: a, isStr: true}
+	case *SymStr:
+		return &iterV{sym: a, isStr: true}
 	}
 	unsupported("range over %T", x)
 	return nil
@@ -1504,6 +1507,9 @@ func (m *Machine) rangeIter(x Value) Value {
 func (m *Machine) next(x Value, in *ssa.Next) Value {
 	it := x.(*iterV)
 	f := m.F
+	if it.isStr && it.sym != nil {
+		return m.nextSymRune(it)
+	}
 	if it.isStr {
 		if it.pos >= len(it.str) {
 			return TupleV{f.False(), f.BVC(64, 0), f.BVC(32, 0)}
@@ -1524,6 +1530,70 @@ func (m *Machine) next(x Value, in *ssa.Next) Value {
 		}
 	}
 	return TupleV{f.False(), m.zero(tt.At(1).Type()), m.zero(tt.At(2).Type())}
+}
+
+// nextSymRune: one step of `for i, r := range s` over a symbolic string. The
+// byte position stays concrete: the width of the rune at the position (1..4, by
+// Go's UTF-8 decoding rules, invalid or truncated encodings yielding U+FFFD of
+// width 1) is decided by forking.
+func (m *Machine) nextSymRune(it *iterV) Value {
+	f := m.F
+	s := it.sym
+	p := it.pos
+	done := TupleV{f.False(), f.BVC(64, 0), f.BVC(32, 0)}
+	if p >= len(s.Bytes) || !m.branch(f.SLt(f.BVC(64, uint64(p)), s.Len), "range string: more") {
+		return done
+	}
+	b := func(k int) *term.T { return s.Bytes[p+k] } // 8-bit
+	in := func(x *term.T, lo, hi uint64) *term.T {
+		return f.And(f.ULe(f.BVC(8, lo), x), f.ULe(x, f.BVC(8, hi)))
+	}
+	avail := func(n int) *term.T { // n bytes available from p
+		if p+n > len(s.Bytes) {
+			return f.False()
+		}
+		return f.SLe(f.BVC(64, uint64(p+n)), s.Len)
+	}
+	w := func(x *term.T) *term.T { return f.ZExt(32, x) }
+	bits := func(x *term.T, mask uint64, sh uint64) *term.T {
+		return f.Shl(f.BAnd(w(x), f.BVC(32, mask)), f.BVC(32, sh))
+	}
+	out := func(size int, r *term.T) Value {
+		it.pos = p + size
+		return TupleV{f.True(), f.BVC(64, uint64(p)), r}
+	}
+	if m.branch(f.ULt(b(0), f.BVC(8, 0x80)), "range string: ascii") {
+		return out(1, w(b(0)))
+	}
+	cont := func(k int) *term.T { return in(b(k), 0x80, 0xBF) }
+	if p+1 < len(s.Bytes) {
+		two := f.And(avail(2), in(b(0), 0xC2, 0xDF), cont(1))
+		if m.branch(two, "range string: 2-byte rune") {
+			return out(2, f.BOr(bits(b(0), 0x1F, 6), bits(b(1), 0x3F, 0)))
+		}
+	}
+	if p+2 < len(s.Bytes) {
+		second := f.Or(
+			f.And(f.Eq(b(0), f.BVC(8, 0xE0)), in(b(1), 0xA0, 0xBF)),
+			f.And(f.Or(in(b(0), 0xE1, 0xEC), in(b(0), 0xEE, 0xEF)), cont(1)),
+			f.And(f.Eq(b(0), f.BVC(8, 0xED)), in(b(1), 0x80, 0x9F)))
+		three := f.And(avail(3), second, cont(2))
+		if m.branch(three, "range string: 3-byte rune") {
+			return out(3, f.BOr(f.BOr(bits(b(0), 0x0F, 12), bits(b(1), 0x3F, 6)), bits(b(2), 0x3F, 0)))
+		}
+	}
+	if p+3 < len(s.Bytes) {
+		second := f.Or(
+			f.And(f.Eq(b(0), f.BVC(8, 0xF0)), in(b(1), 0x90, 0xBF)),
+			f.And(in(b(0), 0xF1, 0xF3), cont(1)),
+			f.And(f.Eq(b(0), f.BVC(8, 0xF4)), in(b(1), 0x80, 0x8F)))
+		four := f.And(avail(4), second, cont(2), cont(3))
+		if m.branch(four, "range string: 4-byte rune") {
+			r := f.BOr(f.BOr(bits(b(0), 0x07, 18), bits(b(1), 0x3F, 12)), f.BOr(bits(b(2), 0x3F, 6), bits(b(3), 0x3F, 0)))
+			return out(4, r)
+		}
+	}
+	return out(1, f.BVC(32, 0xFFFD))
 }
 
 // ---- type assertions
